@@ -79,8 +79,12 @@ def check(ctx, src):
                             continue
                 ctx.decide("Q-ATTRS", key, None if generic else False, f"the `{a}` attribute of {cls} is not emitted by quote", R, f.lineno, witness=f"(quote <{cls} with {a}>) loses {a}", detail="emitted")
                 continue
+            sites.sort(key=lambda t: not (isinstance(getattr(t[0], "_parent", None), ast.Call) and dotted(t[0]._parent.func) == "Keyword"))
             c, fn, fv, at = sites[0]
-            if a == "is_tstring":
+            if not (isinstance(getattr(c, "_parent", None), ast.Call) and dotted(c._parent.func) == "Keyword"):
+                # the attribute name is handed to a table-driven helper: the test it is emitted under is not visible here
+                ctx.decide("Q-ATTRS", key + " test", None, f"`{a}` is emitted through a table-driven helper", R, c.lineno)
+            elif a == "is_tstring":
                 ok = f"{fv}.is_tstring" in at
                 ctx.decide("Q-ATTRS", key + " test", ok, f"is_tstring is emitted under {at}", R, c.lineno, detail="boolean")
             else:
